@@ -69,7 +69,7 @@ impl CPU {
             0x56 => {
                 // LD D,(HL)
                 let addr = self.reg.get_hl();
-                format!("4E            LD D,(${:04X})", addr)
+                format!("56            LD D,(${:04X})", addr)
             }
             0x57 => String::from("57            LD D,A"), // LD D,A
 
